@@ -283,15 +283,18 @@ package tchannel
 // writeMethod starts sending the call req: the ttl it carries is at least one
 // millisecond (so the wire value, floor(ttl/1ms), is never the "no time left" 0
 // unless it wraps at 2^32 ms).
-// ASSUMED (trusted) hand-over point: the contract carries only the
+// (formerly an assumed hand-over point; now verified)
+// the contract carries the
 // precondition, checked in beginCall. (The body runs the fragmenting writer
 // whose sender is the call object itself: BeginArgument's frame forgets the
 // call's own fields, so the precondition of reqResWriter.failed cannot be
 // re-established inside it.)
 //@ func (call *OutboundCall) writeMethod(method []byte) (err error)
-//@   trusted
-// (assumed bounded: it writes arg1 through the fragmenting writer, whose only
-// wait is reqResWriter.flushFragment -- verified `effect bounded` in the C05 file)
+//@   nosafety
+// (verified: the call's exchange, logger and writer are structure invariants of
+// OutboundCall; the writer is idle and at its first argument)
+//@   requires call.contents != nil && FWidle(call.contents) && call.contents.err == nil && call.contents.state == fragmentingWriteStart
+//@   requires call.state == reqResWriterPreArg1
 //@   effect bounded
 //@   label sent-ttl-at-least-1ms
 //@   requires call.callReq.TimeToLive >= 1000000
